@@ -58,7 +58,11 @@ def run(ctx):
         axes = None
         tnode = None
         for c in calls_in(pt.node):
-            if isinstance(c.func, ast.Attribute) and c.func.attr == "transpose" and c.args:
+            if m.resolve_call(pt, c).key == "numpy.transpose" and len(c.args) == 2 and isinstance(c.args[1], (ast.Tuple, ast.List)):
+                if all(isinstance(e, ast.Constant) for e in c.args[1].elts):
+                    axes = [e.value for e in c.args[1].elts]
+                    tnode = c
+            elif isinstance(c.func, ast.Attribute) and c.func.attr == "transpose" and c.args:
                 a0 = c.args[0]
                 if isinstance(a0, (ast.Tuple, ast.List)) and all(isinstance(e, ast.Constant) for e in a0.elts):
                     axes = [e.value for e in a0.elts]
